@@ -168,8 +168,9 @@ CLAIMED = {
         technique='Coq soundness and completeness proofs (induction over the placement order; reader invariant) + vm_compute correspondence on exported molecule graphs'),
     'C02': dict(
         text='Machine-checked proof (Coq), PARTIAL: finite theorem over the nine scheme files REGENERATED from /repo on every run and read by the Coq '
-             'parser+reader (every pattern readable, remaps well-formed, chain-free, unique sources, no molecule prefix); for all inputs: an atom '
-             'matched by a second centre pattern makes the call fail, centres are only given to unnamed atoms, the only failure is the pattern-match '
+             'parser+reader (every pattern readable, remaps well-formed, chain-free, unique sources, no molecule prefix); for all schemes and molecule graphs: a '
+             'decomposition is returned only if EVERY atom is hit by exactly one centre pattern, whose names it then carries, and an atom hit by '
+             'none or by several makes the call fail (assign_centres_unique / assign_centres_fails, invariant over the pattern list); the only failure is the pattern-match '
              'error and it happens exactly when centre assignment fails, dictionary counting is addition on the named entry. The model Graph/Scheme.v '
              'is the independent interpreter of the scheme file; its agreement with GetDescriptors on generated molecules of every scheme is '
              'decided by the correspondence on every run.',
